@@ -79,12 +79,19 @@ KEYS = ["a", "b", "c", "d", "root", "k1", "e"]
 LOOKUP = KEYS + ["", "zz"]
 QUNITS = {"Length": {"m": 1.0, "km": 1000.0, "cm": 0.01, "mm": 0.001},
           "Duration": {"s": 1.0, "min": 60.0, "h": 3600.0, "day": 86400.0},
-          "Speed": {"m/s": 1.0, "km/s": 1000.0}}
+          "Speed": {"m/s": 1.0, "km/s": 1000.0},
+          # two DIFFERENT quantity types with the same SI signature (kg.m2/s2): a parameter declared for one of
+          # them must not accept the other
+          "Energy": {"J": 1.0, "kJ": 1000.0},
+          "Torque": {"N.m": 1.0}}
+SAME_SIGNATURE = {"Energy": "Torque", "Torque": "Energy"}
 QNAMES = sorted(QUNITS)
-QBASE = {"Length": "m", "Duration": "s", "Speed": "m/s"}
+QBASE = {"Length": "m", "Duration": "s", "Speed": "m/s", "Energy": "J", "Torque": "N.m"}
 NOT_UNITS = {"Length": ["s", "min", "m/s", "xyz", "", "kmm", "M"],
              "Duration": ["m", "km", "m/s", "xyz", "", "S"],
-             "Speed": ["m", "s", "h", "xyz", "", "m/"]}
+             "Speed": ["m", "s", "h", "xyz", "", "m/"],
+             "Energy": ["m", "N.m", "xyz", "", "j"],
+             "Torque": ["J", "kJ", "xyz", "", "Nm"]}
 STRS = ["", "a", "abc", "a.b", "ünï", "0", "AZ", "km", "x" * 40]
 REFUSAL = (TypeError, ValueError)
 
@@ -554,6 +561,8 @@ def _derive(node, op):
         base = QBASE[node.q]
         if mode == "otherq":
             oq = QNAMES[(QNAMES.index(node.q) + 1 + n % 2) % len(QNAMES)]
+            if node.q in SAME_SIGNATURE and n % 3 != 0:
+                oq = SAME_SIGNATURE[node.q]
             return ["q", oq, _fl(_float_in(lo, hi, n, x)), QBASE[oq]]
         if mode in ("in", "int", "float"):
             u = units[n % len(units)]
